@@ -9,6 +9,10 @@ from .iter_rules import *
 
 def run(chk, ctx):
     P = Prog(ctx["facts"])
+    # "a variable of the same name IN SCOPE takes precedence": once a loop has ended (or was never entered) its counter and its
+    # lets must be gone, or they keep hiding the device output — the interpreter's run-time scoping, shared with C01
+    from . import c01 as _c01
+    _c01.run(chk.only(("AUT:states-classified", "AUT:3:", "AUT:4:", "AUT:6", "AUT:7:", "TAB:FramedMap", "ORG:set-forwards", "ORG:push_frame-forwards", "ORG:pop_frame-forwards", "WHO:vars-writers", "WHO:FramedMap")), ctx)
     from .iter_rules import plumbing_rule
     plumbing_rule(chk, P, {"ParsedTestCase": ("read_outputs",), "TestCase": ("read_outputs",)})   # what the parser / the binding produced is what runs
     # "variables shadow outputs" holds only while the real variable map is the active one: the exchange made for
